@@ -246,12 +246,14 @@ def step (cs : CaseSt) (op obs : String) : CaseSt × R :=
         (fun s => step? s a, fun _ => true,
          fun ok =>
            -- skippable after Break: what waits in the heap in *every* candidate consistent with the observations
+           -- (after an earlier Stop: what is queued behind the item the dispatcher is handing over)
+           let skipOf (c : St) : List Nat := c.heap.map (·.id) ++ (match c.disp with | .drain (_ :: rest) => rest.map (·.id) | _ => [])
            let inAll := match ok with
              | [] => []
-             | b :: rest => (b.heap.map (·.id)).filter (fun i => rest.all (fun c => c.heap.any (·.id == i)))
+             | b :: rest => (skipOf b).filter (fun i => rest.all (fun c => (skipOf c).contains i))
            { cs.m with stopAt := match cs.m.stopAt with | some x => some x | none => some (sortN (before.accepted ++ before.rejected), before.nextId),
                        broke := cs.m.broke || kind == "brk",
-                       skippable := if kind == "brk" && cs.m.stopAt.isNone then inAll else cs.m.skippable })
+                       skippable := if kind == "brk" && !cs.m.broke then inAll else cs.m.skippable })
       | "obs" | "final" => (idF, fun _ => true, fun _ => cs.m)
       | _ => (fun _ => none, fun _ => false, fun _ => cs.m)
     let okBefore := if kind == "new" then [] else cs.cands.filter pre
@@ -269,7 +271,9 @@ def step (cs : CaseSt) (op obs : String) : CaseSt × R :=
     let newly := o.started.filter (fun i => !cs.prevStarted.contains i)
     let cs1 := { cs with m := m' }
     let mon := monAlways cs1 o ++
-      (if kind == "new" || m'.stopAt.isSome || (if okPairs.isEmpty then priorityOrderOK before o newly else okPairs.any (fun bs => priorityOrderOK bs.1 o newly)) then [] else ["C05.priority_then_fifo"]) ++
+      (if kind == "new" || m'.stopAt.isSome || (if okPairs.isEmpty then priorityOrderOK before o newly else okPairs.any (fun bs => priorityOrderOK bs.1 o newly)) then [] else
+         -- after a SetPriority in this case the same failure also contradicts "competes with priority p from then on"
+         ["C05.priority_then_fifo"] ++ (if cs.feats.contains "deq" then ["C16.setpriority_competes"] else [])) ++
       (if kind == "final" then (finalOK m' o).map (fun c => if c == "C04.never_dropped" && m'.stopAt.isSome then "C19.stop_runs_accepted_once" else c) else []) ++
       (if (kind == "deq" || kind == "setprio") && getF ofs "ret" == some "panic" then ["C16.no_panic"] else [])
     let feats := (if o.disp == "wait" then ["fullwait"] else []) ++ (if o.prod > 0 then ["blocked"] else []) ++
